@@ -87,6 +87,7 @@ class Net:
         self.fate = lambda tx: [0.0]      # default: immediate delivery (still through the loop)
         self.chunker = lambda data: [data]
         self.on_rx = None
+        self.on_tx = None         # called with every genuine transmission (scenarios use it to craft injections)
 
     # --- datagrams -------------------------------------------------------
     def bind(self, addr):
@@ -104,6 +105,8 @@ class Net:
         tx = Tx(self.ntx, self.loop.time(), src, dst, bytes(data))
         delays = list(self.fate(tx))
         self.log.append(("tx", tx.n, tx.t, src, dst, tx.data, tuple(delays)))
+        if self.on_tx:
+            self.on_tx(tx)
         for d in delays:
             # delays are quantised to 2^-20 s and given a strictly increasing offset of 2^-30 s units: all instants stay
             # dyadic (float arithmetic exact, the Lean model uses integer ticks of 2^-30 s), equal delays keep FIFO order
@@ -271,9 +274,12 @@ class _Clock:
 class _Rand:
     def __init__(self, rng):
         self.rng = rng
+        self.log = []          # every value handed to the library (replayed into the Lean model as creation parameters)
 
     def randint(self, a, b):
-        return self.rng.randint(a, b)
+        v = self.rng.randint(a, b)
+        self.log.append((a, b, v))
+        return v
 
     def __getattr__(self, name):
         return getattr(self.rng, name)
@@ -302,7 +308,8 @@ class Sim:
         self._patch(anynet_scheduler, "time", clock)
         self._patch(prudp, "time", clock)
         self._patch(common, "time", clock)
-        self._patch(prudp, "random", _Rand(random.Random(self.rng.random())))
+        self.prudp_rand = _Rand(random.Random(self.rng.random()))
+        self._patch(prudp, "random", self.prudp_rand)
         self._patch(kerberos, "secrets", _Secrets(random.Random(self.rng.random())))
         self.clock = clock
         return self
